@@ -12,7 +12,7 @@
 //verif:replace encoding/json.Unmarshal github.com/celestiaorg/celestia-node/share/availability/light.verifUnmarshal
 //verif:noop github.com/celestiaorg/celestia-app/v9/pkg/da github.com/ipfs/go-datastore/autobatch
 //verif:init github.com/ipfs/go-datastore github.com/celestiaorg/celestia-node/share/availability/light
-//verif:bound light availability: square of 2x2 cells (thorough: also 4x4), configured sample amount 2 or 5 (thorough: 1,2,3,5; so both "amount" and "whole square" limits are met), sample coordinates drawn as arbitrary symbolic values below the width; two consecutive checks of the same block, the second on a fresh instance after a graceful shutdown (the real Close, then only what the write buffer handed to the underlying store survives); per check the getter returns nothing, or a full-length result in which any subset of positions is non-empty, with or without an error (incl. context.Canceled); the datastore Put may fail
+//verif:bound light availability: square of 2x2 cells (thorough: also 4x4), configured sample amount 2 or 5 (thorough: 1,2,3,5; so both "amount" and "whole square" limits are met), sample coordinates drawn as arbitrary symbolic values below the width; two consecutive checks of the same block, the second on a fresh instance after a graceful shutdown (the real Close, then only what the write buffer handed to the underlying store survives); per check the getter returns nothing, or a full-length result in which any subset of positions is non-empty, with or without an error (incl. context.Canceled); the datastore Put may fail and the datastore Get may fail with an I/O error
 //verif:assume the getter hands back only verified samples (C06) and keeps its documented contract (result in request order, empty positions for failures, or no result); crypto/rand is replaced by arbitrary values in range (unpredictability/uniformity is a probabilistic statement outside any solver verdict); JSON encoding of the sampling result is the identity; the datastore is one cell behind a write buffer with autobatch's semantics (Put buffers, Get reads through the buffer, Flush commits everything, Sync(prefix) commits only buffered keys equal to or below the prefix)
 //verif:bound concurrent calls (VerifH_C03_ConcurrentCallsForOneBlockAreSerialised): four goroutines on one instance - three checks of the same block and one of another block - through the real utils.Sessions; the first sample fetch of the contended block is held open until every other goroutine is blocked or done; one waiting caller may be cancelled; 2x2 square, amount 2; sample coordinates fixed; schedules within 1 deviation from round-robin
 //verif:outside uniform/unpredictable drawing; loss of buffered autobatch writes on an ungraceful crash
@@ -66,15 +66,16 @@ func verifDAHHash(d *da.DataAvailabilityHeader) []byte {
 // ---- datastore cell + JSON identity ------------------------------------------
 
 var (
-	verifCell     *SamplingResult // value the instance sees: buffered write, else the durable one (nil = not found)
-	verifDurable  *SamplingResult // what the underlying store holds: survives a restart
-	verifDirty    bool            // the buffer holds a write the underlying store has not seen
-	verifBufKey   datastore.Key   // key of the buffered write
-	verifPutFails bool
-	verifPuts     int
-	verifBlobs    []*SamplingResult
-	verifKeyed    bool                       // concurrent harness: one cell per key, no write buffer
-	verifCells    map[string]*SamplingResult // key -> stored result
+	verifCell                       *SamplingResult // value the instance sees: buffered write, else the durable one (nil = not found)
+	verifDurable                    *SamplingResult // what the underlying store holds: survives a restart
+	verifDirty                      bool            // the buffer holds a write the underlying store has not seen
+	verifBufKey                     datastore.Key   // key of the buffered write
+	verifPutFails                   bool
+	verifPuts                       int
+	verifBlobs                      []*SamplingResult
+	verifGetFaults, verifGetFaulted bool                       // the datastore read may fail with an I/O error
+	verifKeyed                      bool                       // concurrent harness: one cell per key, no write buffer
+	verifCells                      map[string]*SamplingResult // key -> stored result
 )
 
 func verifCopy(r *SamplingResult) *SamplingResult {
@@ -116,6 +117,11 @@ func verifDsGet(d *autobatch.Datastore, ctx context.Context, k datastore.Key) ([
 			return nil, datastore.ErrNotFound
 		}
 		return verifMarshal(c)
+	}
+	if verifGetFaults && nd.Choice(2, "getFault") == 1 {
+		// a read fault is not "never checked"
+		verifGetFaulted = true
+		return nil, errors.New("datastore: read failed")
 	}
 	if verifCell == nil {
 		return nil, datastore.ErrNotFound
@@ -212,7 +218,7 @@ func verifNewLA(g *verifGetter, amount uint) *ShareAvailability {
 // retrieved stays pending - as the same coordinates - across failed, partial
 // and cancelled attempts and across a restart.
 //
-//verif:opts nopanic nodeadlock noreplay maxwall=1500 cover=available,pending,restartdone
+//verif:opts nopanic nodeadlock noreplay maxwall=1500 cover=available,pending,restartdone,read-fault
 func VerifH_C03_AvailableOnlyAfterAllSamples() {
 	// quick: 2x2 square with amount 2 (below the square) or 5 (above it);
 	// thorough adds the 4x4 square and amount 3
@@ -249,7 +255,17 @@ func VerifH_C03_AvailableOnlyAfterAllSamples() {
 		verifPutFails = nd.Choice(2, "putFails") == 1
 		before := verifCell
 		nReq := len(g.requested)
+		verifGetFaults, verifGetFaulted = true, false
 		err := la.SharesAvailable(context.Background(), eh)
+		verifGetFaults = false
+		if verifGetFaulted {
+			// a failing read of the persisted result is an error, not "this block
+			// was never checked": nothing is drawn anew, requested or overwritten
+			nd.Cover("read-fault")
+			nd.Assert(err != nil, "a-read-fault-is-not-availability")
+			nd.Assert(len(g.requested) == nReq, "a-read-fault-draws-no-new-sample-set")
+			nd.Assert(verifCell == before, "a-read-fault-leaves-the-persisted-result-alone")
+		}
 
 		if before != nil && len(g.requested) > nReq {
 			// a retry asks for exactly the coordinates that were pending
